@@ -122,7 +122,7 @@ def frontier (P : Prims) : Pat → Val → Option (List Entry)
           [⟨id, s!"map with {keys.length} entries", some s!"{entries.length} entries"⟩]
         else []
       appendO (some lenE) (frontierEntries P id entries keys vals)
-    | _ => none
+    | _ => if rest && entries.length == 0 then some [] else none   -- `#{..}` constrains nothing
 
 /-- The first element's pattern against `v` itself (after the element's own operations, if any). -/
 def frontierHead (P : Prims) : Items → Val → Option (List Entry)
